@@ -6,6 +6,8 @@
 From Coq Require Import String ZArith List Bool Permutation.
 Import ListNotations.
 From RV Require Import Model.HashModel Proofs.HashModel.
+From RV Require Import Model.C06State Proofs.C06State.
+From Coq Require Import Sorted.
 From RV Require Import Gen.C06Sites Gen.C06BinSites Model.C06Chk Proofs.C06Sites.
 
 (* --- hash containers ------------------------------------------------------------------------- *)
@@ -73,6 +75,117 @@ Print Assumptions C06_scanner_selftest.
 Theorem C06_forbid_unsafe : forbid_ok c06_forbid_unsafe = true.
 Proof. exact forbid_unsafe_both. Qed.
 Print Assumptions C06_forbid_unsafe.
+
+(* --- extension round 4: state that outlives a call, histories, schedules ----------------------------------------
+   Every entry of the source-derived ledger c06_shared_sites is a cell with a class (C06Chk.cell_class: the reason as a
+   constructor).  A new `thread_local!` / `static` / Mutex / OnceCell anywhere in crates/{usvg,resvg}/src appends a
+   Mutable cell to ledger_classes and C06_state_ledger_discharged stops holding. *)
+Theorem C06_state_ledger_discharged :
+  forallb discharged ledger_classes = true /\ forallb discharged (map bin_cell_class c06_bin_shared_sites) = true.
+Proof. exact (conj ledger_discharged bin_ledger_discharged). Qed.
+Print Assumptions C06_state_ledger_discharged.
+
+(* for ANY ledger whose cells are all discharged and any program that respects the classes: the output of a call is the
+   same after every history (in particular: used process vs fresh process, h2 = []) *)
+Theorem C06_history_independent :
+  forall F G Hc (classes : list cls) init prog,
+  forallb discharged classes = true -> (forall x, forallb (instr_ok classes) (prog x) = true) ->
+  forall h1 h2 x,
+    fst (call F G Hc classes init prog x (hrun F G Hc classes init prog h1 (store0 init)))
+    = fst (call F G Hc classes init prog x (hrun F G Hc classes init prog h2 (store0 init))).
+Proof. exact history_independent. Qed.
+Print Assumptions C06_history_independent.
+
+(* N threads over one shared store that any history has already used, ANY schedule: a thread that ran to completion
+   holds the output of one call in a fresh process *)
+Theorem C06_any_schedule :
+  forall F G Hc (classes : list cls) init prog,
+  forallb discharged classes = true -> (forall x, forallb (instr_ok classes) (prog x) = true) ->
+  forall (xs h sched : list nat) i th,
+    nth_error (fst (interleave F G Hc classes sched (map (spawn init prog) xs) (hrun F G Hc classes init prog h (store0 init)))) i = Some th ->
+    t_prog th = [] ->
+    exists x, nth_error xs i = Some x /\ fst (t_loc th) = fst (call F G Hc classes init prog x (store0 init)).
+Proof. exact any_schedule. Qed.
+Print Assumptions C06_any_schedule.
+
+(* the same two statements for the ledger of the current source *)
+Theorem C06_ledger_history_independent :
+  forall F G Hc init prog, (forall x, forallb (instr_ok ledger_classes) (prog x) = true) ->
+  forall h1 h2 x,
+    fst (call F G Hc ledger_classes init prog x (hrun F G Hc ledger_classes init prog h1 (store0 init)))
+    = fst (call F G Hc ledger_classes init prog x (hrun F G Hc ledger_classes init prog h2 (store0 init))).
+Proof. exact ledger_history_independent. Qed.
+Print Assumptions C06_ledger_history_independent.
+
+Theorem C06_ledger_any_schedule :
+  forall F G Hc init prog, (forall x, forallb (instr_ok ledger_classes) (prog x) = true) ->
+  forall (xs h sched : list nat) i th,
+    nth_error (fst (interleave F G Hc ledger_classes sched (map (spawn init prog) xs)
+                      (hrun F G Hc ledger_classes init prog h (store0 init)))) i = Some th ->
+    t_prog th = [] ->
+    exists x, nth_error xs i = Some x /\ fst (t_loc th) = fst (call F G Hc ledger_classes init prog x (store0 init)).
+Proof. exact ledger_any_schedule. Qed.
+Print Assumptions C06_ledger_any_schedule.
+
+(* the converse: one undischarged cell (a counter read at entry and written back: seeded change C06-14 in miniature)
+   makes the output depend on the history, and on the schedule *)
+Theorem C06_history_independence_refuted_by_mutable_cell :
+  exists F G Hc classes init prog h1 h2 x,
+    (forall y, forallb (instr_ok classes) (prog y) = true) /\
+    forallb discharged classes = false /\
+    fst (call F G Hc classes init prog x (hrun F G Hc classes init prog h1 (store0 init)))
+    <> fst (call F G Hc classes init prog x (hrun F G Hc classes init prog h2 (store0 init))).
+Proof. exact history_dependence_with_mutable_cell. Qed.
+Print Assumptions C06_history_independence_refuted_by_mutable_cell.
+
+Theorem C06_schedule_independence_refuted_by_mutable_cell :
+  exists F G Hc classes init prog xs s1 s2,
+    (forall y, forallb (instr_ok classes) (prog y) = true) /\
+    map (fun t => length (t_prog t)) (fst (interleave F G Hc classes s1 (map (spawn init prog) xs) (store0 init))) = [0; 0]%nat /\
+    map (fun t => length (t_prog t)) (fst (interleave F G Hc classes s2 (map (spawn init prog) xs) (store0 init))) = [0; 0]%nat /\
+    map (fun t => fst (t_loc t)) (fst (interleave F G Hc classes s1 (map (spawn init prog) xs) (store0 init)))
+    <> map (fun t => fst (t_loc t)) (fst (interleave F G Hc classes s2 (map (spawn init prog) xs) (store0 init))).
+Proof. exact schedule_dependence_with_mutable_cell. Qed.
+Print Assumptions C06_schedule_independence_refuted_by_mutable_cell.
+
+(* --- extension round 4: order of sorted sequences ------------------------------------------------------------- *)
+(* every sort / dedup / heap / parallel-iterator site of usvg, resvg, both main.rs, simplecss and fontdb (versions pinned by
+   Cargo.lock) is a stable sort, dedup or binary_search; simplecss sorts the rules by specificity with a stable sort;
+   fontdb keeps its faces in a SlotMap and touches the file system / environment only while a Database is built *)
+Theorem C06_order_ledger : order_ledger_ok = true.
+Proof. exact order_ledger. Qed.
+Print Assumptions C06_order_ledger.
+
+(* a stable sort is a function of (key, source order): ANY sorted arrangement that keeps equal-key elements in source
+   order is the insertion-sort result *)
+Theorem C06_stable_sort_unique :
+  forall (A : Type) (key : A -> nat) (l l' : list A),
+  StronglySorted (fun a b => key a <= key b)%nat l' -> (forall k, keyfilter A key k l' = keyfilter A key k l) ->
+  l' = ssort A key l.
+Proof. exact stable_sort_unique. Qed.
+Print Assumptions C06_stable_sort_unique.
+
+(* an unstable sort (any sorted permutation) is determined only when the keys are pairwise different ... *)
+Theorem C06_unstable_sort_determined_when_keys_distinct :
+  forall (A : Type) (key : A -> nat) (l l1 l2 : list A), NoDup (map key l) ->
+  Permutation l l1 -> StronglySorted (fun a b => key a <= key b)%nat l1 ->
+  Permutation l l2 -> StronglySorted (fun a b => key a <= key b)%nat l2 -> l1 = l2.
+Proof. exact unstable_sort_determined_when_keys_distinct. Qed.
+Print Assumptions C06_unstable_sort_determined_when_keys_distinct.
+
+(* ... and stability matters for the CSS cascade (last matching rule wins): two rules of equal specificity *)
+Theorem C06_css_cascade_needs_stable_sort :
+  exists rules l1 l2, Permutation rules l1 /\ StronglySorted (fun a b => fst a <= fst b)%nat l1 /\
+    Permutation rules l2 /\ StronglySorted (fun a b => fst a <= fst b)%nat l2 /\
+    cascade l1 <> cascade l2 /\ css_value rules = Some 22%nat.
+Proof. exact css_cascade_needs_stable_sort. Qed.
+Print Assumptions C06_css_cascade_needs_stable_sort.
+
+Theorem C06_css_cascade_stable_deterministic :
+  forall rules l', StronglySorted (fun a b => fst a <= fst b)%nat l' ->
+  (forall k, keyfilter _ fst k l' = keyfilter _ fst k rules) -> cascade l' = css_value rules.
+Proof. exact css_cascade_stable_deterministic. Qed.
+Print Assumptions C06_css_cascade_stable_deterministic.
 
 (* --- generated ids --------------------------------------------------------------------------- *)
 Theorem C06_cache_per_call : cache_per_call_ok = true.
@@ -144,3 +257,32 @@ Example C06_make_mut_applies :
   forall (D : Type) (w : world D) i c f, nth_error (holders D w) i = Some c ->
   seen D (make_mut_apply D w i f) i = Some (f (cells D w c)).
 Proof. exact make_mut_applies. Qed.
+Example C06_state_model_runs :
+  fst (call exF exG exHc ex_classes ex_init ex_prog 5 (hrun exF exG exHc ex_classes ex_init ex_prog [1; 2; 5; 3]%nat (store0 ex_init)))
+  = fst (call exF exG exHc ex_classes ex_init ex_prog 5 (store0 ex_init))
+  /\ fst (call exF exG exHc ex_classes ex_init ex_prog 5 (store0 ex_init)) <> fst (call exF exG exHc ex_classes ex_init ex_prog 6 (store0 ex_init)).
+Proof. exact ex_history. Qed.
+Example C06_schedules_complete_and_agree :
+  outs (interleave exF exG exHc ex_classes ex_rr (map (spawn ex_init ex_prog) [5; 6; 5]%nat) (store0 ex_init))
+  = outs (interleave exF exG exHc ex_classes ex_seq (map (spawn ex_init ex_prog) [5; 6; 5]%nat)
+            (hrun exF exG exHc ex_classes ex_init ex_prog [9; 9]%nat (store0 ex_init)))
+  /\ map fst (outs (interleave exF exG exHc ex_classes ex_rr (map (spawn ex_init ex_prog) [5; 6; 5]%nat) (store0 ex_init))) = [0; 0; 0]%nat.
+Proof. exact ex_schedules. Qed.
+Example C06_ledger_cells_inhabited :
+  existsb (fun c => match c with ImmInit => true | _ => false end) ledger_classes = true
+  /\ existsb (fun c => match c with CallLocal => true | _ => false end) ledger_classes = true
+  /\ existsb (fun c => match c with ExtInput => true | _ => false end) ledger_classes = true
+  /\ existsb (fun c => match c with ImmInit => true | _ => false end) (map bin_cell_class c06_bin_shared_sites) = true
+  /\ existsb (fun c => match c with NotOutput => true | _ => false end) (map bin_cell_class c06_bin_shared_sites) = true.
+Proof. exact ledger_classes_inhabited. Qed.
+Example C06_ledger_program_admitted : forallb (instr_ok ledger_classes) touch_all = true /\ (10 <= length touch_all)%nat.
+Proof. exact touch_all_ok. Qed.
+Example C06_class_checker_rejects :
+  cell_class {| ss_file := "crates/resvg/src/path.rs"; ss_fn := ""; ss_kind := "thread_local"; ss_text := "thread_local! {"; ss_line := 1 |} = Mutable
+  /\ cell_class {| ss_file := "crates/resvg/src/filter/iir_blur.rs"; ss_fn := ""; ss_kind := "static_interior"; ss_text := "static SCRATCH: Mutex<Vec<f64>> = Mutex::new(Vec::new());"; ss_line := 1 |} = Mutable
+  /\ cell_class {| ss_file := "crates/resvg/src/render.rs"; ss_fn := "render"; ss_kind := "fs"; ss_text := ""; ss_line := 1 |} = Mutable
+  /\ cell_class {| ss_file := "crates/usvg/src/writer.rs"; ss_fn := "write"; ss_kind := "fmt_ptr"; ss_text := ""; ss_line := 1 |} = Mutable
+  /\ order_site_ok {| ss_file := "crates/usvg/src/text/layout.rs"; ss_fn := "f"; ss_kind := "sort_unstable"; ss_text := ""; ss_line := 1 |} = false
+  /\ dep_site_ok {| ss_file := "fontdb/src/lib.rs"; ss_fn := "query"; ss_kind := "env"; ss_text := ""; ss_line := 1 |} = false
+  /\ hsite_ok {| hs_file := "x"; hs_fn := "f"; hs_owner := "Document"; hs_name := "links"; hs_method := "macro_arg"; hs_line := 1 |} = false.
+Proof. vm_compute. repeat split; reflexivity. Qed.
